@@ -6,6 +6,7 @@ import Jrpc.Errors
 import Jrpc.Call
 import Jrpc.Reader
 import Jrpc.Locks
+import Jrpc.Stream
 /-
   Jrpc.Ops — dispatch of driver operations onto the model's executable definitions.
 -/
@@ -272,6 +273,63 @@ def opLocks (j : Json) : R Json := do
   return Json.mkObj [("accepted", refused.isNone), ("refusedAt", optJ (fun (n : Nat) => (n : Json)) refused),
                      ("monitor", Locks.sectionsOK none es), ("sections", s.msgNo), ("generation", s.gen)]
 
+def streamEv (e : Json) : R Stream.Ev := do
+  match (← str e "e") with
+  | "reg" => return .reg
+  | "fwdVal" => return .fwdVal (← nat e "v")
+  | "fwdClose" => return .fwdClose
+  | "sinkReg" => return .sinkReg
+  | "chval" => return .chval (← bool e "found")
+  | "pushed" => return .pushed
+  | "dropped" => return .dropped
+  | "chclose" => return .chclose (← bool e "found")
+  | "ccClose" => return .ccClose
+  | "bufIn" => return .bufIn
+  | "bufOut" => return .bufOut
+  | "bufInClosed" => return .bufInClosed
+  | "bufClose" => return .bufClose (if (← str e "cause") == "ctx" then .ctx else .drained)
+  | "ctxCancel" => return .ctxCancel
+  | x => throw s!"bad stream event {x}"
+
+/-- Replay of one subscription's events with τ-saturation for the one rendezvous whose two sides are
+    logged by different goroutines after it completed: the sink's send into `incoming`
+    (`sink.pushed`) and the buffer goroutine's receive from it (`buf.in`).  Either log entry may come
+    first.  When `bufIn` is refused while a value sits inside the sink, the not-yet-logged `pushed`
+    is applied first; when `pushed` is refused because `incoming` is full, the not-yet-logged `bufIn`
+    is applied first; the late log entry is then skipped. -/
+def replayStream (es : List Stream.Ev) : Stream.St × Option Nat :=
+  let rec go (s : Stream.St) (earlyPushed earlyBufIn : Nat) (i : Nat) : List Stream.Ev → Stream.St × Option Nat
+    | [] => (s, none)
+    | e :: rest =>
+      match e, earlyPushed, earlyBufIn with
+      | .pushed, p + 1, b => go s p b (i + 1) rest            -- already applied as τ
+      | .bufIn, p, b + 1 => go s p b (i + 1) rest             -- already applied as τ
+      | _, _, _ =>
+        match Stream.step? s e with
+        | some s' => go s' earlyPushed earlyBufIn (i + 1) rest
+        | none =>
+          match e with
+          | .bufIn =>
+            match (Stream.step? s .pushed).bind (fun s1 => Stream.step? s1 .bufIn) with
+            | some s2 => go s2 (earlyPushed + 1) earlyBufIn (i + 1) rest
+            | none => (s, some i)
+          | .pushed =>
+            match (Stream.step? s .bufIn).bind (fun s1 => Stream.step? s1 .pushed) with
+            | some s2 => go s2 earlyPushed (earlyBufIn + 1) (i + 1) rest
+            | none => (s, some i)
+          | _ => (s, some i)
+  go {} 0 0 0 es
+
+/-- op "stream": one subscription's events in trace order. -/
+def opStream (j : Json) : R Json := do
+  let es ← (arrD j "events").mapM streamEv
+  let (s, refused) := replayStream es
+  let natsJ (l : List Nat) : Json := Json.arr (l.map (fun (n : Nat) => (n : Json))).toArray
+  return Json.mkObj [("accepted", refused.isNone), ("refusedAt", optJ (fun (n : Nat) => (n : Json)) refused),
+    ("recv", natsJ s.recv), ("sent", natsJ s.sent), ("closed", s.closed), ("crashed", s.crashed),
+    ("inTransit", natsJ s.inTransit), ("hCloseSeen", s.hCloseSeen), ("ctxCancelled", s.ctxCancelled),
+    ("prefixOK", isPrefixOf s.recv s.sent)]
+
 def run (j : Json) : R Json := do
   match (← str j "op") with
   | "http" => opHttp j
@@ -285,6 +343,7 @@ def run (j : Json) : R Json := do
   | "reader" => opReader j
   | "rendezvous" => opRendezvous j
   | "locks" => opLocks j
+  | "stream" => opStream j
   | "authhttp" => opAuthHttp j
   | op => throw s!"unknown op {op}"
 
